@@ -175,6 +175,10 @@ def oracles(spec: dict, inputs: list[dict], r: dict, base: list) -> list[dict]:
                 owner[top] = pi
             elif owner.get(top) is not None and owner[top] != pi and natural == 0 and not flagged_iso:
                 if _alive_at(events, owner[top], seq):
+                    if path.split("/")[-1].startswith("escaped_") and any(i.get("kind") == "escape" for i in inputs):
+                        V.append(_v("isolation", "escape-report", f"proc {pi} {op} {path} at seq {seq}: the report file that escaped the per-run directory of proc {owner[top]} has the same name for every run", pi))
+                        flagged_iso = True
+                        continue
                     V.append(_v("isolation", f"{op}|{procworld._pclass(path)}", f"proc {pi} {op} {path} at seq {seq}: the entry belongs to the live run of proc {owner[top]}", pi))
                     flagged_iso = True
             if op in ("unlink", "rmdir") and natural == 0 and path == top:
